@@ -56,7 +56,7 @@ func runCut(b []byte, pre iosim.Schedule, cut *Cut, nameArgs bool, cov *Cov) cut
 	res.OffAfter = sr.Offset()
 	if cov != nil {
 		cov.Steps += clk.Now()
-		cov.Faults.Add(sr.Stats)
+		cov.NoteReader(sr)
 		cov.Faults.Writes += w.Writes
 	}
 	return cutRun{res: res, sr: sr}
@@ -230,6 +230,23 @@ func checkCut(c *Case, s *gen.Stream, ref cutRun, cov *Cov) []*Violation {
 		if len(gotG) > started {
 			add("complete-goroutines", "", fmt.Sprintf("%d goroutines returned but only %d had started before the cut", len(gotG), started))
 		}
+		// race report: a goroutine whose operation section ended before the cut
+		// already has its final id, access kind, address and operation stack,
+		// even if its creation section has not arrived yet
+		if di.Race {
+			for gi := range di.OpEnd {
+				if di.OpEnd[gi] <= cut.K && di.GorEnd[gi] > cut.K && gi < len(gotG) && gi < len(refG) {
+					a, g := refG[gi], gotG[gi]
+					if a.ID != g.ID || a.RaceWrite != g.RaceWrite || a.RaceAddr != g.RaceAddr || a.First != g.First || !reflect.DeepEqual(a.Stack, g.Stack) {
+						add("partial-goroutine", "", fmt.Sprintf("race report goroutine #%d: its operation section ended before the cut but id/access/address/stack differ from the uncut scan: %s", gi, DiffGoroutine(&stack.Goroutine{Signature: stack.Signature{Stack: a.Stack}, ID: a.ID, RaceWrite: a.RaceWrite, RaceAddr: a.RaceAddr, First: a.First}, &stack.Goroutine{Signature: stack.Signature{Stack: g.Stack}, ID: g.ID, RaceWrite: g.RaceWrite, RaceAddr: g.RaceAddr, First: g.First})))
+						break
+					}
+				} else if di.OpEnd[gi] <= cut.K && gi >= len(gotG) {
+					add("complete-goroutines", "", fmt.Sprintf("race report goroutine #%d: its operation section lies before the cut but the goroutine is missing (%d returned)", gi, len(gotG)))
+					break
+				}
+			}
+		}
 		// the partial goroutine of a goroutine dump: what ended before the cut
 		// must match
 		if !di.Race && c.Doc != nil {
@@ -296,7 +313,7 @@ func checkC10Loop(c *Case, cov *Cov) []*Violation {
 	lr := ScanLoop(sr, w, c.Opts(), bytes.Count(b[:c.Cut.K], []byte("\n"))+3, nil)
 	if cov != nil {
 		cov.Steps += clk.Now()
-		cov.Faults.Add(sr.Stats)
+		cov.NoteReader(sr)
 	}
 	var vs []*Violation
 	add := func(clause, msg string) {
@@ -386,7 +403,6 @@ func RunC10(r *core.Rng, run uint64, seed uint64, tier string, cov *Cov) []*Viol
 	}
 	return vs
 }
-
 
 func init() {
 	register(&Spec{
